@@ -224,6 +224,24 @@ func c17Tables(c *Ctx, p *Prog, m *Model) {
 		ok := false
 		for _, cs := range callsIn(ut) {
 			if cal := calleeOf(cs); cal != nil && nm(cal) == "ParseLevel" && dependsOnParam(cs.Common().Args[0], ut.Params[1]) {
+				// the text is parsed as it is: a normalisation applied here but not where titles are registered and
+				// printed (trimming, folding) makes a level whose title it changes unreadable from its own marshalled form
+				for v := strip(cs.Common().Args[0]); ; {
+					if cv, isCv := v.(*ssa.Convert); isCv {
+						v = strip(cv.X)
+						continue
+					}
+					if call, isCall := v.(*ssa.Call); isCall {
+						if c2 := calleeOf(call); c2 != nil && len(call.Common().Args) >= 1 {
+							if n2 := c2.Name(); n2 != "ToLower" {
+								r.Bad("R17.2", "Level.UnmarshalText:as-is", p.Pos(instrPos(call)), "the text is passed through %s before it is parsed, a normalisation that registration and MarshalText do not apply: a registered title it changes (padding, case) no longer unmarshals to its level", c2.String())
+							}
+							v = strip(call.Common().Args[0])
+							continue
+						}
+					}
+					break
+				}
 				for _, b := range ut.Blocks {
 					for _, in := range b.Instrs {
 						if st, isS := in.(*ssa.Store); isS && st.Addr == ssa.Value(ut.Params[0]) && dependsOn(st.Val, cs.Value()) {
